@@ -366,6 +366,10 @@ class Agent(dbus.service.Object):
         '''
         pri_blk = ctr.bundle.primary
 
+        if 'receive' in ctr.actions:
+            # only locally created bundles get defaults
+            return
+
         if pri_blk.source is None:
             pri_blk.source = self._config.node_id
 
